@@ -4,7 +4,10 @@ proof:  Properties_C17.v: the model's listing (emitProgramText) passes the spec 
         model's image, for every accepted program.
 tie:    model vs real hexasm (listing text and file bytes compared verbatim on every source).
 oracle: extracted AsmSpec.check_listing on the REAL `--instrs` / `xcmp -S` listing and the REAL binary: decoding the binary at
-        the listed offsets yields the listed mnemonic, operand and size, in order, with only zeros in between/after."""
+        the listed offsets yields the listed mnemonic, operand and size, in order, with only zeros in between/after.
+        The real listing TEXT is read by the extracted Coq reader AsmListingRead.read_listing_line, for which
+        C17_text_listing_reads_back proves that it recovers exactly struct_listing from the text the model prints (and the
+        Coq printer is compared verbatim with the real text on every source)."""
 import os, sys
 sys.path.insert(0, os.path.dirname(os.path.abspath(__file__)))
 import vlib, asmcommon as A
@@ -14,7 +17,7 @@ from vlib import Check
 def main():
     ck = Check('C17')
     ck.cov['trusted_base'] = ['Coq 8.16.1 kernel + VM', 'AsmSpec.v (check_listing, ISA decode)', 'AsmLayout.v hand model tied by correspondence',
-                              'extraction + asmdrv.ml/asmoracle.ml', 'tools/asmcommon.py parse_listing (reads the real listing text)', 'asm_harness.cpp / real xcmp -S']
+                              'extraction + asmdrv.ml/asmlistdrv.ml (hex transport of the listing lines)', 'AsmListingRead.v reader: proved to invert the model printer (C17_text_listing_reads_back); tools/asmcommon.py parse_listing only as a cross-check', 'asm_harness.cpp / real xcmp -S']
     ok = ck.proofs()
     ck.log('proofs', 'ok' if ok else 'BROKEN')
     n1, n2 = (500, 500) if not ck.thorough() else (25000, 25000)
@@ -24,26 +27,23 @@ def main():
         ck.finish()
     cases, hv, d = r
     ncorr = A.correspondence(ck, cases)
+    # ---- the oracle: the REAL listing text read by the extracted Coq reader (AsmListingRead.read_listing_line, proved to
+    # invert the model's printer), judged by the extracted AsmSpec.check_listing against the REAL image
+    import asmlisting as AL
     ocases, meta = [], []
     for i, c in enumerate(cases):
         if c['accept']:
-            ll = A.parse_listing(c['real']['lines'])
-            if ll is None:
-                bad = next((l for l in c['real']['lines'] if l.startswith('L ') and A.parse_listing([l]) is None), '')
-                ck.violation('a listing line does not show what the property requires (offset, mnemonic, operand value in parentheses for labels, size): %r' % bad,
-                             {'source': c['src'].decode('latin1')[:4000], 'line': bad}, tags={'kind': 'listing-line'})
-                continue
-            ocases.append({'prog': [], 'file': c['file'], 'listing': ll, 'use_syms': False})
+            ocases.append({'file': c['file'], 'lines': AL.listing_lines(c['real']['lines'])})
             meta.append(('asm', c['src'].decode('latin1'), c['real']['lines']))
     for x in A.xcmp_listings(ck, d, limit=None if ck.thorough() else 8):
-        ll = A.parse_listing(x['lines'])
-        if ll is None:
-            ck.broken.append('cannot read the listing xcmp -S printed for %s' % x['name'])
-            continue
-        ocases.append({'prog': [], 'file': x['file'], 'listing': ll, 'use_syms': False})
+        ocases.append({'file': x['file'], 'lines': AL.listing_lines(x['lines'])})
         meta.append(('xcmp', x['name'], x['lines']))
-    res = A.oracle(hv, ocases, d)
-    nfail = 0
+    try:
+        res = AL.read_listings(hv, ocases, d)
+    except RuntimeError as ex:
+        ck.broken.append('the extracted listing reader/validator did not run: %s' % ex)
+        res = [None] * len(ocases)
+    nfail = nrej = ncross = 0
     dist = {'asm': 0, 'xcmp': 0}
     distinct = set()
     for j, rj in enumerate(res):
@@ -51,13 +51,55 @@ def main():
         dist[kind] += 1
         ck.cov['evaluations'] += 1
         distinct.add(hash(src))
-        if rj is None or rj['listing'] != 'ok':
+        if rj is None:
+            nfail += 1
+            if nfail <= 3:
+                ck.violation('the binary file is malformed, the listing cannot be compared with it (%s)' % kind,
+                             {'source': src[:4000], 'listing': lines[:60], 'file_hex': ocases[j]['file'].hex()[:4000]}, tags={'kind': 'listing'})
+            continue
+        if not rj['consistent']:
+            ck.broken.append('read_listing and the line-by-line use of read_listing_line disagree (driver fault) on %r' % src[:200])
+        if rj['read'] != 'ok':
+            nrej += 1
+            bad = ocases[j]['lines'][rj['read'][1]].decode('latin1')
+            if nrej <= 3:
+                ck.violation('a listing line does not show what the property requires (offset, mnemonic, operand value in parentheses for labels, size): %r' % bad,
+                             {'source': src[:4000], 'line': bad}, tags={'kind': 'listing-line'})
+            continue
+        # cross-check: the Python reader must see the same items
+        pi = AL.python_items(lines)
+        if pi != rj['items']:
+            ncross += 1
+            if ncross <= 2:
+                k = next((q for q, (a, b) in enumerate(zip(pi or [], rj['items'])) if a != b), min(len(pi or []), len(rj['items'])))
+                ck.broken.append('listing readers disagree (Coq read_listing_line vs tools/asmcommon.parse_listing) at item %d: %r vs %r; source %r'
+                                 % (k, rj['items'][k:k + 1], (pi or [None])[k:k + 1], src[:200]))
+        if rj['verdict'] != 'ok':
             nfail += 1
             if nfail <= 3:
                 ck.violation('the listing does not describe the binary (%s): decoding the image at the listed offsets does not give the listed lines' % kind,
                              {'source': src[:4000], 'listing': lines[:60], 'file_hex': ocases[j]['file'].hex()[:4000]}, tags={'kind': 'listing'})
         elif j % 101 == 0:
-            ck.sample({'kind': kind, 'listing_head': lines[1:5], 'verdict': 'check_listing ok'})
+            ck.sample({'kind': kind, 'listing_head': lines[1:5], 'read_as': rj['items'][:4], 'verdict': 'check_listing ok'})
+    # ---- tie of the Coq line printer (AsmListingRead.listing_lines, the printer of C17_text_listing_reads_back): verbatim = real text
+    acc = [c for c in cases if c['accept']]
+    mt, mrc, merr = AL.model_text(hv, [c['src'] for c in acc], d)
+    if mrc != 0:
+        ck.broken.append('asmlisttext failed rc=%d %s' % (mrc, merr))
+    ntext = ntextdiff = 0
+    for c, t in zip(acc, mt):
+        if t is None:
+            continue
+        ntext += 1
+        real = AL.listing_lines(c['real']['lines'])
+        if t != real:
+            ntextdiff += 1
+            if ntextdiff <= 2:
+                k = next((q for q, (a, b) in enumerate(zip(t, real)) if a != b), min(len(t), len(real)))
+                ck.broken.append('the Coq listing printer (AsmListingRead.listing_lines) differs from the real text at line %d: model %r real %r; source %r'
+                                 % (k, t[k:k + 1], real[k:k + 1], c['src'][:150]))
+    ck.cov['listing_reader'] = {'read_by': 'extracted AsmListingRead.read_listing_line (Coq)', 'listings': len(res), 'lines_refused': nrej,
+                                'python_cross_check_disagreements': ncross, 'coq_printer_vs_real_text': {'compared': ntext, 'differing': ntextdiff}}
     if ncorr:
         ex = next(c for c in cases if 'corr_diff' in c)
         ck.broken.append('correspondence model vs real hexasm: %d sources differ, e.g. model [%s] real [%s] source %r'
